@@ -151,6 +151,10 @@ impl C16 {
             for t in ["print(0.0)", "print(-0.0)", "print([0.0, -0.0])", "print([-0.0, 0.0])", "string(-0.0)", "string(0.0)", "print(1.0); print(1)", "print(1); print(1.0)", "print(\"1\"); print(1)", "print(-0.0); -0.0", "print(0.0); 0.0", "[-0.0]", "[0.0]", "print(ja); print(1)", "print(\"\"); print(null_())"] {
                 v.push(t.replace("null_()", "(als nee { 1 })"));
             }
+            // formats at the edge of what the placeholder scanner reads
+            for t in ["print(\"{\")", "print(\"a {} {\", 1)", "print(\"1234567{\")", "print(\"12345678{\", 2)", "print(\"}\")", "print(\"{}{\", \"{}\")", "print(\"\")", "print(\"é{\")"] {
+                v.push(t.to_string());
+            }
             // the same object reached along two paths inside one printed / converted value
             v.push("stel rij = [1, 2]; print([rij, rij, [3, 4]]); print(\"{} {}\", rij, rij); string([rij, [rij], rij])".to_string());
             v.push("functie paar(x) { [x, x] }; stel p = paar(paar([\"a\"])); print(p); [string(p), lengte(string(p))]".to_string());
@@ -352,6 +356,10 @@ impl Check for C16 {
     }
 
     fn post(&mut self, ctx: &Ctx, merged: &mut Stats) {
+        if ctx.flavour == Flavour::Rel {
+            // the in-process contexts (history, threads) natively under valgrind memcheck, in both tiers
+            crate::sup::run_valgrind_inproc("C16", ctx, 3, 3, merged);
+        }
         if ctx.flavour == Flavour::Rel && ctx.tier == Tier::Thorough {
             // Miri's data-race detector over the threads context (and the hand-written Send/Sync of Object)
             let mctx = Ctx { seed: ctx.seed, tier: ctx.tier, flavour: Flavour::Miri };
